@@ -876,8 +876,12 @@ def _pyro_obj_to_auto_proxy(obj: Any) -> Any:
     """reduce function that automatically replaces Pyro objects by a Proxy"""
     daemon = getattr(obj, "_pyroDaemon", None)
     if daemon:
-        # only return a proxy if the object is a registered pyro object
-        return daemon.proxyFor(obj)
+        # only return a proxy if the object is (still) a registered pyro object in that daemon
+        registered = daemon.objectsById.get(getattr(obj, "_pyroId", None))
+        if isinstance(registered, weakref.ref):
+            registered = registered()
+        if registered is obj or (inspect.isclass(registered) and isinstance(obj, registered)):
+            return daemon.proxyFor(obj)
     return obj
 
 
